@@ -252,6 +252,67 @@ for _cap in (None, 1, 2):
         (lambda c: lambda V: _function(V, c))(_cap))
 
 
+# ------------------------------------------------------------------ positional-only parameters
+def _mk_posonly(collect):
+    @utype.parse(options=Options(collect_errors=collect))
+    def g(a: types.PositiveInt, b: types.PositiveInt = 1, /, c: types.PositiveInt = 2, *, d: types.PositiveInt):
+        return a, b, c, d
+    return g
+
+
+G_PLAIN, G_COLL = _mk_posonly(False), _mk_posonly(True)
+
+
+@ob('function/positional-only', marks=['accept', 'reject'], budget=(90, 300),
+    bounds='def g(a, b=1, /, c=2, *, d) with PositiveInt parameters; 0..3 positional arguments, c and d by name or omitted; each value '
+           'solver int -3..3 | "x" | "5": same verdict and value as fail-fast, and the collected error names each failing or absent '
+           'parameter exactly once')
+def function_posonly(V):
+    failing = set()
+
+    def val(name):
+        k = V.pick(name + '_kind', ['int', 'bad', 'num'])
+        if k == 'int':
+            v = V.int(name, -3, 3)
+            return v, (True if v > 0 else False)
+        return ('x', False) if k == 'bad' else ('5', True)
+    n_pos = V.pick('n_pos', [0, 1, 2, 3])
+    args, kwargs = [], {}
+    for i, name in enumerate(('a', 'b', 'c')[:n_pos]):
+        v, good = val(name)
+        args.append(v)
+        if not good:
+            failing.add(name)
+    if n_pos == 0:
+        failing.add('a')
+    if n_pos < 3 and V.bool('c_kw'):
+        v, good = val('c')
+        kwargs['c'] = v
+        if not good:
+            failing.add('c')
+    if V.bool('d_kw'):
+        v, good = val('d')
+        kwargs['d'] = v
+        if not good:
+            failing.add('d')
+    else:
+        failing.add('d')
+    ra, rb = attempt(G_PLAIN, *args, **kwargs), attempt(G_COLL, *args, **kwargs)
+    det = lambda: 'g(*%r, **%r): fail-fast -> %r ; collecting -> %r %r ; failing: %r' % (
+        args, kwargs, ra, rb, collected_items(rb[1]) if rb[0] != 'ok' else '', sorted(failing))
+    V.check(ra[0] != 'crash' and rb[0] != 'crash', 'function:crash', det)
+    V.check(ra[0] == rb[0], 'function:verdict', det)
+    V.check((ra[0] == 'ok') == (not failing), 'function:verdict-vs-params', det)
+    if ra[0] == 'ok':
+        V.check(ra[1] == rb[1], 'function:value', det)
+        V.cover('accept')
+        return
+    got = collected_items(rb[1])
+    V.check(got is not None, 'function:not-collected', det)
+    V.check(sorted(got) == sorted(failing), 'function:items', det)
+    V.cover('reject')
+
+
 # ------------------------------------------------------------------ union-typed field where every branch fails
 class UF(Schema):
     __options__ = Options(collect_errors=True)
@@ -395,4 +456,8 @@ def computed_property(V):
         V.check(dict(ra[1]) == dict(rb[1]), 'property:value', det)
         V.cover('accept')
     else:
+        got = collected_items(rb[1])
+        # one entry per failing top-level item (field or property), each named
+        V.check(got is not None and None not in got and len(set(got)) == len(got) and set(got) <= {'prefix', 'number', 'code', 'half'},
+                'property:items', lambda: det() + ' ; collected items %r' % (got,))
         V.cover('reject')
